@@ -5,6 +5,7 @@
 import Gowarc.Props.C17
 import Gowarc.Props.C02e2e
 import Gowarc.Props.C03detect
+import Gowarc.Lemmas.RecordMono
 namespace Gowarc
 open Gowarc.Props.C17 Gowarc.Props.C20 Gowarc.Props.C03 Fields
 
@@ -202,4 +203,358 @@ theorem specDefects_set_digest (Ω : Oracles) (ver : Nat) (h : Fields) (n v : By
   obtain ⟨a, b, c, d, e, f⟩ := digest_field_facts Ω ver v n hn
   exact specDefects_add Ω ver h (canon n) v (by unfold Fields.has at habs; exact habs) a b c d e f hd
 
+/-! ### validateHeader is silent on a header set without defects -/
+
+/-- the header names a type, the reader's unknown-type axis lets it pass silently, and the set has no spec-axis defect -/
+def HdrOK (op : Opts) (Ω : Oracles) (vid : Nat) (h : Fields) : Prop :=
+  (typeFieldOf h).isEmpty = false ∧ (rtOf h = 0 → op.unk = .ignore) ∧ specDefects Ω vid h = []
+
+theorem validateHeader_silent (op : Opts) (Ω : Oracles) (vid : Nat) (h : Fields) (f : List Tag) (hok : HdrOK op Ω vid h) :
+    validateHeader op Ω vid ⟨h, f⟩ = (.ok (rtOf h), ⟨h, f⟩) := by
+  obtain ⟨ht, hu, hd⟩ := hok
+  unfold validateHeader resolveRecordType
+  simp only [M.bind_def, M.hdr_def, ht, condSite_false]
+  have h2 : condSite (rtOf h == 0) op.unk .hdrUnknownType ⟨h, f⟩ = (.ok (), ⟨h, f⟩) := by
+    by_cases hz : rtOf h = 0
+    · rw [hu hz]; exact condSite_ignore _ _ _
+    · have : (rtOf h == 0) = false := by simpa using hz
+      rw [this]; rfl
+  simp only [h2, M.pure_def]
+  cases hs : op.spec with
+  | ignore => simp
+  | warn =>
+    have hne : (Pol.warn != Pol.ignore) = true := by decide
+    simp only [hne, ↓reduceIte, M.bind_def]
+    rw [validateSpec_warn op Ω vid hs h f, hd]
+    simp
+  | fail =>
+    have hne : (Pol.fail != Pol.ignore) = true := by decide
+    simp only [hne, ↓reduceIte, M.bind_def]
+    rw [validateSpec_fail' op Ω vid hs h f, hd]
+    rfl
+
+/-! ### digests -/
+
+/-- the digest object parseBlock builds for a field: from the declared value, or from the configured default -/
+def digestOfField (o : Opts) (h : Fields) (field : Bytes) : Option Digest :=
+  if h.has field then newDigest (h.get field) o.defaultEnc else newDigest o.defaultAlg o.defaultEnc
+
+theorem digestFromField_eq (o : Opts) (field : Bytes) (s : St) :
+    digestFromField o field s = (match digestOfField o s.hdr field with
+      | some d => (.ok d, s)
+      | none => (.error .digestAlg, s)) := by
+  unfold digestFromField digestOfField
+  simp only [M.bind_def, M.hdr_def]
+  cases (if s.hdr.has field = true then newDigest (s.hdr.get field) o.defaultEnc else newDigest o.defaultAlg o.defaultEnc) <;> rfl
+
+section
+variable (H : Alg → Bytes → Bytes)
+
+/-- when the per-field digest check neither reports nor rewrites -/
+def SilentDigest (o : Opts) (d : Digest) (data : Bytes) : Prop :=
+  (d.hash = [] ∧ o.addMissingDigest = false) ∨ (d.hash ≠ [] ∧ d.valid H data = true)
+
+theorem checkDigest_silent (o : Opts) (field : Bytes) (tag : Tag) (d : Digest) (data : Bytes) (s : St)
+    (h : SilentDigest H o d data) : checkDigest H o field tag d data s = (.ok (), s) := by
+  rcases h with ⟨he, ha⟩ | ⟨hne, hv⟩
+  · simp [checkDigest, he, ha]
+  · exact checkDigest_complete H o field tag d data s hne hv
+
+theorem encChain_ne (l n : Nat) (dflt : Enc) (h : dflt ≠ .unknown) :
+    (if l == n * 2 then Enc.b16 else if l == b32EncodedLen n then Enc.b32 else if l == b64EncodedLen n then Enc.b64 else dflt) ≠ .unknown := by
+  split
+  · simp
+  · split
+    · simp
+    · split
+      · simp
+      · exact h
+
+theorem detectEncoding_ne_unknown (a hsh : Bytes) (dflt : Enc) (h : dflt ≠ .unknown) : detectEncoding a hsh dflt ≠ .unknown := by
+  unfold detectEncoding
+  split
+  · split <;> simp
+  · exact encChain_ne _ _ _ h
+
+theorem newDigest_enc (s : Bytes) (dflt : Enc) (d : Digest) (hd : dflt ≠ .unknown) (h : newDigest s dflt = some d) : d.enc ≠ .unknown := by
+  unfold newDigest at h
+  cases hs : splitFirst COLON s with
+  | none =>
+    simp only [hs] at h
+    split at h
+    · simp only [Option.some.injEq] at h; subst h; exact detectEncoding_ne_unknown _ _ _ hd
+    · split at h
+      · simp only [Option.some.injEq] at h; subst h; exact detectEncoding_ne_unknown _ _ _ hd
+      · cases h
+  | some p =>
+    obtain ⟨a, hh⟩ := p
+    simp only [hs] at h
+    split at h
+    · simp only [Option.some.injEq] at h; subst h; exact detectEncoding_ne_unknown _ _ _ hd
+    · split at h
+      · simp only [Option.some.injEq] at h; subst h; exact detectEncoding_ne_unknown _ _ _ hd
+      · cases h
+
+/-- a digest field written by the builder from a default digest object is silently accepted by every reader -/
+theorem written_digest_silent (o op : Opts) (d0 : Digest) (data : Bytes) (hd0 : newDigest o.defaultAlg o.defaultEnc = some d0)
+    (henc : o.defaultEnc ≠ .unknown) (hH : ∀ a x, (H a x).length = a.size) :
+    ∃ d', newDigest (d0.format H data) op.defaultEnc = some d' ∧ SilentDigest H op d' data := by
+  obtain ⟨d', h1, h2, h3⟩ := C03_format_reparse H d0 (newDigest_name _ _ _ hd0) (newDigest_enc _ _ _ henc hd0) data (hH _ _) op.defaultEnc
+  exact ⟨d', h1, Or.inr ⟨h2, h3⟩⟩
+
+theorem digestFromField_ok (o : Opts) (field : Bytes) (s s' : St) (d : Digest) (h : digestFromField o field s = (.ok d, s')) :
+    s' = s ∧ digestOfField o s.hdr field = some d := by
+  rw [digestFromField_eq] at h
+  cases hd : digestOfField o s.hdr field with
+  | none => rw [hd] at h; simp at h
+  | some d' => rw [hd] at h; simp only [Prod.mk.injEq, Except.ok.injEq] at h; exact ⟨h.2.symm, by rw [h.1]⟩
+
+theorem le_fail (p : Pol) : p.le .fail = true := by cases p <;> rfl
+
+/-- what the strict parse of a warc-fields block implies for every other syntax policy: same fields, no findings -/
+theorem parseFields_of_fail (p : Pol) (s : Stream) (fs : Fields) (fnd : List Tag) (s' : Stream)
+    (h : parseFields .fail s = .ok fs fnd s') : fnd = [] ∧ parseFields p s = .ok fs [] s' := by
+  have hf : fnd = [] := by
+    have := parseFields_nofind .fail (by decide) s
+    rw [h] at this; exact this
+  obtain ⟨fL, h1, h2⟩ := parseFields_le p .fail (le_fail p) s fs fnd s' h
+  rw [h2 hf] at h1
+  exact ⟨hf, h1⟩
+
+/-- an HTTP block whose head is terminated and accepted by net/http is taken silently under every policy -/
+theorem newHttpBlock_clean (o : Opts) (Ω : Oracles) (c : Bytes) (bd pd : Digest) (s : St)
+    (hlen : (decide (c.length < 4)) = false) (hfound : (headerBytes c).2.2 = true)
+    (hhttp : Ω.http (hasPrefix (bs "HTTP") (headerBytes c).1) (headerBytes c).1 = true) :
+    newHttpBlock o Ω c bd pd s =
+      (.ok { kind := if hasPrefix (bs "HTTP") (headerBytes c).1 then .httpResp else .httpReq, raw := c,
+             headLen := (headerBytes c).1.length, blockDigest := bd, payloadDigest := some pd }, s) := by
+  unfold newHttpBlock
+  simp only [M.bind_def, hlen, condFail, Bool.false_eq_true, ↓reduceIte, M.pure_def, hfound, Bool.not_true, condSite_false, Bool.false_and,
+    M.hdr_def, M.setHdr_def, hhttp, headerBytes_append]
+
+theorem newHttpBlock_strict_ok (o : Opts) (Ω : Oracles) (c : Bytes) (bd pd : Digest) (s s' : St) (b : Block)
+    (hsyn : o.syn = .fail) (hblk : o.blk = .fail) (h : newHttpBlock o Ω c bd pd s = (.ok b, s')) :
+    (decide (c.length < 4)) = false ∧ (headerBytes c).2.2 = true ∧
+    Ω.http (hasPrefix (bs "HTTP") (headerBytes c).1) (headerBytes c).1 = true := by
+  unfold newHttpBlock at h
+  simp only [M.bind_def, hsyn, hblk, condSite_fail] at h
+  by_cases h1 : c.length < 4
+  · simp [condFail, h1] at h
+  · simp only [condFail, h1, decide_false, Bool.false_eq_true, ↓reduceIte, M.pure_def] at h
+    by_cases h2 : (headerBytes c).2.2 = true
+    · simp only [h2, Bool.not_true, Bool.false_eq_true, ↓reduceIte, Bool.false_and, M.hdr_def, M.setHdr_def] at h
+      by_cases h3 : Ω.http (hasPrefix (bs "HTTP") (headerBytes c).1) (headerBytes c).1 = true
+      · exact ⟨by simp [h1], h2, h3⟩
+      · simp [h3] at h
+    · simp [h2] at h
+
+/-- a warc-fields block whose content the strict header parser accepts is taken silently under every policy -/
+theorem newWarcFieldsBlock_clean (o : Opts) (c : Bytes) (bd : Digest) (s : St) (fs : Fields) (fnd : List Tag) (st : Stream)
+    (hparse : parseFields .fail ⟨c, false⟩ = .ok fs fnd st) :
+    newWarcFieldsBlock o c false bd s =
+      (.ok { kind := .warcFields, raw := c, headLen := 0, blockDigest := bd, payloadDigest := none }, s) := by
+  obtain ⟨_, hp⟩ := parseFields_of_fail o.syn _ _ _ _ hparse
+  obtain ⟨_, hw⟩ := parseFields_of_fail .warn _ _ _ _ hparse
+  obtain ⟨_, hi⟩ := parseFields_of_fail .ignore _ _ _ _ hparse
+  unfold newWarcFieldsBlock wfFinish
+  simp only [M.bind_def, condSite_false, hp, ParseRes.findings, ParseRes.errTag, ParseRes.fieldsOpt, List.isEmpty_nil, Bool.not_true,
+    Bool.and_false, Bool.false_eq_true, ↓reduceIte, M.pure_def]
+  have hrep : wfReport o.blk [] s = (.ok (), s) := by
+    cases o.blk <;> simp [wfReport, wfFindings, condFail]
+  simp only [hrep]
+  split
+  · unfold wfDetectFix; simp only [hw, hi, List.isEmpty_nil, Bool.not_true, Bool.false_eq_true, ↓reduceIte]
+  · rfl
+
+theorem newWarcFieldsBlock_strict_ok (o : Opts) (c : Bytes) (bd : Digest) (s s' : St) (b : Block)
+    (hsyn : o.syn = .fail) (h : newWarcFieldsBlock o c false bd s = (.ok b, s')) :
+    ∃ fs fnd st, parseFields .fail ⟨c, false⟩ = .ok fs fnd st := by
+  rw [newWarcFieldsBlock_not_ignore o c false bd (by rw [hsyn]; decide)] at h
+  unfold wfFinish at h
+  simp only [M.bind_def, condSite_false, hsyn] at h
+  cases hp : parseFields .fail ⟨c, false⟩ with
+  | ok fs fnd st => exact ⟨fs, fnd, st, rfl⟩
+  | err t fnd =>
+    rw [hp] at h
+    simp only [ParseRes.findings, ParseRes.errTag] at h
+    cases hr : wfReport o.blk fnd s with
+    | mk r s1 =>
+      rw [hr] at h
+      cases r <;> simp at h
+
+/-- **the block a strict builder accepted is accepted silently by every reader**: same bytes, same shape -/
+theorem parseBlock_reaccept (ob op : Opts) (Ω : Oracles) (rt : Nat) (content : Bytes) (sb sb' : St) (b : Block)
+    (hsyn : ob.syn = .fail) (hblk : ob.blk = .fail) (hskip : op.skipParseBlock = ob.skipParseBlock)
+    (hrun : parseBlock ob Ω rt content false sb = (.ok b, sb'))
+    (hp : Fields) (f : List Tag) (hct : hp.get (bs "Content-Type") = sb.hdr.get (bs "Content-Type"))
+    (bd pd : Digest) (hbd : digestOfField op hp (bs "WARC-Block-Digest") = some bd)
+    (hpd : digestOfField op hp (bs "WARC-Payload-Digest") = some pd) :
+    sb' = sb ∧ b.raw = content ∧
+    (∃ bd0 pd0, digestOfField ob sb.hdr (bs "WARC-Block-Digest") = some bd0 ∧ digestOfField ob sb.hdr (bs "WARC-Payload-Digest") = some pd0 ∧
+       b.blockDigest = bd0 ∧ (b.payloadDigest = none ∨ b.payloadDigest = some pd0)) ∧
+    ∃ b', parseBlock op Ω rt content false ⟨hp, f⟩ = (.ok b', ⟨hp, f⟩) ∧ b'.raw = content ∧ b'.headLen = b.headLen ∧ b'.kind = b.kind ∧
+          b'.blockDigest = bd ∧ b'.payloadDigest = b.payloadDigest.map (fun _ => pd) := by
+  unfold parseBlock at hrun
+  obtain ⟨bd0, s1, h1, hrun⟩ := bind_ok _ _ _ _ _ hrun
+  obtain ⟨pd0, s2, h2, hrun⟩ := bind_ok _ _ _ _ _ hrun
+  obtain ⟨hd, s3, h3, hrun⟩ := bind_ok _ _ _ _ _ hrun
+  obtain ⟨e1, hb0⟩ := digestFromField_ok _ _ _ _ _ h1
+  subst e1
+  obtain ⟨e2, hp0⟩ := digestFromField_ok _ _ _ _ _ h2
+  subst e2
+  simp only [M.hdr_def, Prod.mk.injEq, Except.ok.injEq] at h3
+  obtain ⟨e3, e4⟩ := h3
+  subst e3; subst e4
+  -- the reader's run, reduced to the same case distinction
+  have hpar : parseBlock op Ω rt content false ⟨hp, f⟩ =
+      (if (!ob.skipParseBlock && rt &&& Gen.httpBlockMask != 0 && hasPrefix (bs Gen.c_ApplicationHttp) (lowerKey (s2.hdr.get (bs "Content-Type")))) = true then
+         newHttpBlock op Ω content bd pd
+       else if (!ob.skipParseBlock && rt == RT_Revisit) = true then
+         (if false = true then M.fail .reader
+          else pure { kind := .revisit, raw := content, headLen := content.length, blockDigest := bd, payloadDigest := none })
+       else if (!ob.skipParseBlock && hasPrefix (bs Gen.c_ApplicationWarcFields) (lowerKey (s2.hdr.get (bs "Content-Type")))) = true then
+         newWarcFieldsBlock op content false bd
+       else
+         pure { kind := .generic, raw := content, headLen := 0, blockDigest := bd,
+                payloadDigest := if rt == RT_Resource then some pd else none }) ⟨hp, f⟩ := by
+    unfold parseBlock
+    simp only [M.bind_def, digestFromField_eq, hbd, hpd, M.hdr_def, hct, hskip]
+  rw [hpar]
+  dsimp only at hrun
+  by_cases c1 : (!ob.skipParseBlock && rt &&& Gen.httpBlockMask != 0 && hasPrefix (bs Gen.c_ApplicationHttp) (lowerKey (s2.hdr.get (bs "Content-Type")))) = true
+  · simp only [c1, ↓reduceIte] at hrun ⊢
+    obtain ⟨k1, k2, k3⟩ := newHttpBlock_strict_ok ob Ω content bd0 pd0 _ _ _ hsyn hblk hrun
+    rw [newHttpBlock_clean ob Ω content bd0 pd0 _ k1 k2 k3] at hrun
+    simp only [Prod.mk.injEq, Except.ok.injEq] at hrun
+    obtain ⟨e5, e6⟩ := hrun
+    subst e5
+    refine ⟨e6.symm, rfl, ⟨bd0, pd0, hb0, hp0, rfl, Or.inr rfl⟩, ?_⟩
+    exact ⟨_, newHttpBlock_clean op Ω content bd pd _ k1 k2 k3, rfl, rfl, rfl, rfl, rfl⟩
+  · simp only [c1, Bool.false_eq_true, ↓reduceIte] at hrun ⊢
+    by_cases c2 : (!ob.skipParseBlock && rt == RT_Revisit) = true
+    · simp only [c2, ↓reduceIte, Bool.false_eq_true, M.pure_def, Prod.mk.injEq, Except.ok.injEq] at hrun ⊢
+      obtain ⟨e5, e6⟩ := hrun
+      subst e5
+      refine ⟨e6.symm, rfl, ⟨bd0, pd0, hb0, hp0, rfl, Or.inl rfl⟩, ?_⟩
+      exact ⟨_, ⟨rfl, trivial⟩, rfl, rfl, rfl, rfl, rfl⟩
+    · simp only [c2, Bool.false_eq_true, ↓reduceIte] at hrun ⊢
+      by_cases c3 : (!ob.skipParseBlock && hasPrefix (bs Gen.c_ApplicationWarcFields) (lowerKey (s2.hdr.get (bs "Content-Type")))) = true
+      · simp only [c3, ↓reduceIte] at hrun ⊢
+        obtain ⟨fs, fnd, st, hparse⟩ := newWarcFieldsBlock_strict_ok ob content bd0 _ _ _ hsyn hrun
+        rw [newWarcFieldsBlock_clean ob content bd0 _ fs fnd st hparse] at hrun
+        simp only [Prod.mk.injEq, Except.ok.injEq] at hrun
+        obtain ⟨e5, e6⟩ := hrun
+        subst e5
+        refine ⟨e6.symm, rfl, ⟨bd0, pd0, hb0, hp0, rfl, Or.inl rfl⟩, ?_⟩
+        exact ⟨_, newWarcFieldsBlock_clean op content bd _ fs fnd st hparse, rfl, rfl, rfl, rfl, rfl⟩
+      · simp only [c3, Bool.false_eq_true, ↓reduceIte, M.pure_def, Prod.mk.injEq, Except.ok.injEq] at hrun ⊢
+        obtain ⟨e5, e6⟩ := hrun
+        subst e5
+        refine ⟨e6.symm, rfl, ⟨bd0, pd0, hb0, hp0, rfl, ?_⟩, _, ⟨rfl, trivial⟩, rfl, rfl, rfl, rfl, ?_⟩
+        · by_cases hr : (rt == RT_Resource) = true <;> simp [hr]
+        · by_cases hr : (rt == RT_Resource) = true <;> simp [hr]
+
+/-! ### ValidateDigest: what the strict builder leaves, and when a reader is silent -/
+
+/-- the header the builder ends with when the caller supplied no digest fields: block digest set, payload digest set
+    where ValidateDigest looks at one -/
+def finalHdr (rt : Nat) (b : Block) (h : Fields) : Fields :=
+  if rt == RT_Revisit || (h.set (bs "WARC-Block-Digest") (b.blockDigest.format H b.raw)).has (bs "WARC-Segment-Number") then
+    h.set (bs "WARC-Block-Digest") (b.blockDigest.format H b.raw)
+  else match b.payloadDigest with
+    | some pd => (h.set (bs "WARC-Block-Digest") (b.blockDigest.format H b.raw)).set (bs "WARC-Payload-Digest") (pd.format H b.payload)
+    | none => h.set (bs "WARC-Block-Digest") (b.blockDigest.format H b.raw)
+
+theorem validateDigest_strict_fresh (ob : Opts) (rt : Nat) (b : Block) (s s' : St)
+    (hspec : ob.spec = .fail) (hadd : ob.addMissingDigest = true)
+    (hbe : b.blockDigest.hash = []) (hpe : ∀ pd, b.payloadDigest = some pd → pd.hash = [])
+    (hcl : s.hdr.has (bs "Content-Length") = true)
+    (h : validateDigest H ob rt b false s = (.ok (), s')) :
+    s'.fnd = s.fnd ∧ s.hdr.get (bs "Content-Length") = natToDec b.raw.length ∧ s'.hdr = finalHdr H rt b s.hdr := by
+  unfold validateDigest at h
+  simp only [M.bind_def, condFail, Bool.false_and, Bool.false_eq_true, ↓reduceIte, M.pure_def, M.hdr_def, hspec, condSite_fail,
+    M.setHdr_def] at h
+  by_cases hlb : lengthBad ob s.hdr b = true
+  · simp [hlb] at h
+  · have hlb' : lengthBad ob s.hdr b = false := by simpa using hlb
+    simp only [hlb', Bool.false_eq_true, ↓reduceIte, Bool.false_and] at h
+    have hlen : s.hdr.get (bs "Content-Length") = natToDec b.raw.length := by
+      unfold lengthBad at hlb'
+      have hs : (ob.spec != .ignore) = true := by rw [hspec]; decide
+      simp only [hs, hcl, Bool.true_and, bne_eq_false_iff_eq] at hlb'
+      exact hlb'.symm
+    rw [checkDigest_adds H ob _ _ _ _ _ hbe hadd] at h
+    simp only at h
+    unfold finalHdr
+    by_cases hsk : (rt == RT_Revisit || (s.hdr.set (bs "WARC-Block-Digest") (b.blockDigest.format H b.raw)).has (bs "WARC-Segment-Number")) = true
+    · simp only [hsk, ↓reduceIte, M.pure_def, Prod.mk.injEq, Except.ok.injEq, true_and] at h ⊢
+      subst h; exact ⟨rfl, hlen, rfl⟩
+    · simp only [hsk, Bool.false_eq_true, ↓reduceIte] at h ⊢
+      cases hpd : b.payloadDigest with
+      | none =>
+        simp only [hpd, M.pure_def, Prod.mk.injEq, Except.ok.injEq, true_and] at h
+        subst h; exact ⟨rfl, hlen, rfl⟩
+      | some pd =>
+        simp only [hpd] at h
+        rw [checkDigest_adds H ob _ _ _ _ _ (hpe pd hpd) hadd] at h
+        simp only [Prod.mk.injEq, Except.ok.injEq, true_and] at h
+        subst h; exact ⟨rfl, hlen, rfl⟩
+
+theorem validateDigest_silent (op : Opts) (rt : Nat) (b : Block) (hp : Fields) (f : List Tag)
+    (hcl : hp.get (bs "Content-Length") = natToDec b.raw.length)
+    (hbd : SilentDigest H op b.blockDigest b.raw)
+    (hpd : (rt == RT_Revisit || hp.has (bs "WARC-Segment-Number")) = false → ∀ pd, b.payloadDigest = some pd → SilentDigest H op pd b.payload) :
+    validateDigest H op rt b false ⟨hp, f⟩ = (.ok (), ⟨hp, f⟩) := by
+  unfold validateDigest
+  have hlb : lengthBad op hp b = false := by
+    unfold lengthBad; rw [hcl]; simp
+  simp only [M.bind_def, condFail, Bool.false_and, Bool.false_eq_true, ↓reduceIte, M.pure_def, M.hdr_def, hlb, condSite_false,
+    M.setHdr_def, checkDigest_silent H op _ _ _ _ _ hbd]
+  by_cases hsk : (rt == RT_Revisit || hp.has (bs "WARC-Segment-Number")) = true
+  · simp [hsk]
+  · have hsk' : (rt == RT_Revisit || hp.has (bs "WARC-Segment-Number")) = false := by simpa using hsk
+    simp only [hsk', Bool.false_eq_true, ↓reduceIte]
+    cases hb : b.payloadDigest with
+    | none => rfl
+    | some pd => exact checkDigest_silent H op _ _ _ _ _ (hpd hsk' pd hb)
+
+theorem parseBlock_needs_digests (o : Opts) (Ω : Oracles) (rt : Nat) (c : Bytes) (fault : Bool) (s s' : St) (b : Block)
+    (h : parseBlock o Ω rt c fault s = (.ok b, s')) :
+    ∃ bd0 pd0, digestOfField o s.hdr (bs "WARC-Block-Digest") = some bd0 ∧ digestOfField o s.hdr (bs "WARC-Payload-Digest") = some pd0 := by
+  unfold parseBlock at h
+  obtain ⟨bd0, s1, h1, h⟩ := bind_ok _ _ _ _ _ h
+  obtain ⟨pd0, s2, h2, h⟩ := bind_ok _ _ _ _ _ h
+  obtain ⟨e1, hb0⟩ := digestFromField_ok _ _ _ _ _ h1
+  subst e1
+  obtain ⟨e2, hp0⟩ := digestFromField_ok _ _ _ _ _ h2
+  exact ⟨bd0, pd0, hb0, hp0⟩
+
+/-- facts about a header after a digest field it did not have was set -/
+theorem set_digest_facts (Ω : Oracles) (vid : Nat) (h : Fields) (n v : Bytes)
+    (hn : n ∈ [bs "WARC-Block-Digest", bs "WARC-Payload-Digest"]) (habs : h.has n = false) :
+    (h.set n v).get (bs "Content-Type") = h.get (bs "Content-Type") ∧
+    (h.set n v).get (bs "Content-Length") = h.get (bs "Content-Length") ∧
+    (h.set n v).has (bs "WARC-Segment-Number") = h.has (bs "WARC-Segment-Number") ∧
+    contentLengthOf (h.set n v) = contentLengthOf h ∧
+    typeFieldOf (h.set n v) = typeFieldOf h ∧ rtOf (h.set n v) = rtOf h ∧
+    (specDefects Ω vid h = [] → specDefects Ω vid (h.set n v) = []) ∧
+    (h.set n v).has n = true ∧ (h.set n v).get n = v := by
+  obtain ⟨a, b, c, d, e, f⟩ := digest_field_facts Ω vid v n hn
+  have hseg : ∀ m ∈ [bs "WARC-Block-Digest", bs "WARC-Payload-Digest"], (canon m == canon (bs "WARC-Segment-Number")) = false := by decide
+  refine ⟨?_, ?_, ?_, ?_, ?_, ?_, fun hd => specDefects_set_digest Ω vid h n v hn habs hd, has_set_same h n v, get_set_same h n v⟩
+  · rw [set_absent h n v habs]; exact get_append_other h _ v _ d
+  · rw [set_absent h n v habs]; exact get_append_other h _ v _ c
+  · rw [set_absent h n v habs]; exact has_append_other h _ v _ (hseg n hn)
+  · rw [set_absent h n v habs]; exact contentLengthOf_append h _ v c
+  · rw [set_absent h n v habs]; exact typeFieldOf_append h _ v b
+  · rw [set_absent h n v habs]; exact rtOf_append h _ v b
+
+theorem has_setId_other (h : Fields) (n m v : Bytes) (hne : canon m ≠ canon n) : (h.setId n v).has m = h.has m := by
+  unfold Fields.setId
+  cases Fields.idValue v with
+  | none => rfl
+  | some w => exact has_set_other h n m w hne
+
+
+end
 end Gowarc
